@@ -345,6 +345,54 @@ func ruleR14(p *Prog) []Ob {
 		_ = sets
 		_ = closes
 	}
+	// (e) who may broadcast: the notifier is set only behind a publish of the wrapped log; a
+	// broadcast for anything else (a Sync, a Delete, a timer) wakes parked consumers for nothing
+	if setFn := notifyMethods["Set"]; setFn != nil {
+		ob := Ob{Rule: "R14", Inst: "e:who-may-set", Props: props, Pos: p.posStr(setFn.Pos()), Nontrivial: true}
+		n := 0
+		var bad []string
+		for _, fn := range p.Funcs {
+			if !srcFunc(fn) || fn.Pkg == nil || fn.Pkg.Pkg.Path() == setFn.Pkg.Pkg.Path() {
+				continue
+			}
+			for _, b := range fn.Blocks {
+				for _, ins := range b.Instrs {
+					c, ok := ins.(ssa.CallInstruction)
+					if !ok || !isNotifyCall(c.Common(), "Set") {
+						continue
+					}
+					n++
+					behindPublish := false
+					for _, b2 := range fn.Blocks {
+						for _, i2 := range b2.Instrs {
+							pc, ok := i2.(*ssa.Call)
+							if !ok || !pc.Common().IsInvoke() || pc.Common().Method.Name() != "Publish" {
+								continue
+							}
+							if f, _ := loadedField(pc.Common().Value); f != nil && f.Embedded() {
+								if cc, isCall := ins.(*ssa.Call); isCall && instrDominates(pc, cc) {
+									behindPublish = true
+								}
+							}
+						}
+					}
+					if !behindPublish {
+						bad = append(bad, fmt.Sprintf("%s: %s sets the notifier without having published through the wrapped log", p.at(ins), funcLabel(fn)))
+					}
+				}
+			}
+		}
+		switch {
+		case len(bad) > 0:
+			sort.Strings(bad)
+			ob.Status, ob.Msg, ob.Path = Violated, "the notifier is set (every Set is a broadcast) where nothing was published: parked blocking consumers return with no message, no Close and no cancellation", bad
+		case n == 0:
+			ob.Status, ob.Msg = Undecided, "no call of the notifier's Set found outside its package"
+		default:
+			ob.Status, ob.Msg = Discharged, fmt.Sprintf("%d call(s) of Set outside the notifier, each dominated by the wrapped log's Publish", n)
+		}
+		obs = append(obs, ob)
+	}
 	if nWrappers == 0 {
 		obs = append(obs, Ob{Rule: "R14", Inst: "a:wrappers", Props: props, Pos: "-", Status: Undecided, Msg: "no blocking wrapper (struct embedding a log with a *notify.Offset field) with a Publish method found"})
 	}
